@@ -183,6 +183,7 @@ func (w *W) goStmt(t *Thread, f *frame, x *ssa.Go, key int, g *Term) *Term {
 			nt := &Thread{w: w, id: len(w.threads), ops: map[int]*opState{}, spawned: False, key: mkKey(0, -9, site, j), truncated: False, finished: False,
 				name: fmt.Sprintf("go %s at %s [slot %d]", fa.fn.Name(), w.pos(x.Pos()), j)}
 			nt.fn = fa
+			nt.fromLib = !f.harness
 			w.threads = append(w.threads, nt)
 			slots = append(slots, nt)
 		}
